@@ -360,11 +360,40 @@ def _int_norm(f):
     return f
 
 
+def _expand_minmax(f):
+    """c + min(a, b) < 0  is  (c + a < 0) or (c + b < 0); with max it is `and` (same for <=): one comparison of the smaller / larger class size
+    is the pair of per-class comparisons."""
+    from ..terms import to_poly, cmp0, Poly, conj, disj
+    if not (isinstance(f, App) and f.fn in ("lt0", "le0") and len(f.args) == 1):
+        return None
+    p = to_poly(f.args[0])
+    if p is None:
+        return None
+    mm = [(m, c) for m, c in p.t.items() if len(m) == 1 and m[0][1] == 1 and isinstance(m[0][0], App) and m[0][0].fn in ("min", "max") and len(m[0][0].args) >= 2]
+    if len(mm) != 1 or abs(mm[0][1]) != 1:
+        return None
+    m, c = mm[0]
+    atom = m[0][0]
+    rest = Poly({k: v for k, v in p.t.items() if k != m})
+    parts = []
+    for a in atom.args:
+        pa = to_poly(a)
+        if pa is None:
+            return None
+        parts.append(cmp0(f.fn[:2], rest + (pa if c > 0 else -pa)))
+    # coefficient +1: min -> or, max -> and; coefficient -1 flips (-(min) = max(-))
+    use_or = (atom.fn == "min") == (c > 0)
+    return disj(parts) if use_or else conj(parts)
+
+
 def _bool_eval(f, asg):
     """Value of a boolean term under an assignment of atoms (an atom or its negation may be the key); None = not determined."""
     from ..terms import negate
     if isinstance(f, Const):
         return bool(f.value)
+    e = _expand_minmax(f)
+    if e is not None:
+        return _bool_eval(e, asg)
     for g in (f, _int_norm(f), negate(_int_norm(negate(f)))):
         if g in asg:
             return asg[g]
